@@ -50,6 +50,10 @@ def check(rep: Report, ctx: Ctx) -> None:
     r710(rep, ctx)
     r711(rep, ctx)
     r712(rep, ctx)
+    r713(rep, ctx)
+    r714(rep, ctx)
+    r715(rep, ctx)
+    r716(rep, ctx)
 
 
 def r71(rep: Report, ctx: Ctx, det: FuncInfo) -> None:
@@ -894,7 +898,9 @@ def loop_boundary_evidence(rep: Report, ctx: Ctx, rule: str) -> None:
     R, ws = _evidence_writes(ctx, a_e)
     import re
 
-    def m_norm(s: str) -> str:
+    def m_norm(s):
+        if isinstance(s, tuple):
+            return tuple(m_norm(x) for x in s)
         return re.sub(r"phi\(P:end_event_to_event_lists\|\{\}\)|"
                       r"\(P:end_event_to_event_lists Or \{\}\)|"
                       r"P:end_event_to_event_lists", "M", s)
@@ -927,3 +933,334 @@ def r712(rep: Report, ctx: Ctx) -> None:
     rep.rule("R7.12", "the dummy start / end of a loop body carry the "
              "evidence of the loop's boundary in the parent graph", 12)
     loop_boundary_evidence(rep, ctx, "R7.12")
+
+
+# --------------------------------------------------------------------------
+def parent_rewiring(rep: Report, ctx: Ctx, rule: str) -> None:
+    """(shared: R7.13 / R1.14)  When a loop is replaced by its loop node the
+    parent graph keeps two structures in step: the edges and the successor /
+    predecessor *sets* of the events at the loop's boundary.  For every
+    boundary the three handlers must (1) rewrite the sets of every outside
+    neighbour -- the loop's types replaced by the loop node's type -- read
+    and written in the same direction, computed *before* the old edges (and
+    with them the old types) are removed, (2) remove exactly the boundary
+    edges together with the sets that mirror them, (3) add the edge to /
+    from the loop node in the right direction.  A set that is not rewritten
+    is a successor the diagram never draws after the loop (C01: the job is
+    rejected; C07: the nesting is incomplete); an edge in the wrong
+    direction re-creates a cycle."""
+    from .effspec import before, effects, expect
+    LWL = "get_event_lists_with_loop_events"
+    OVL = "get_event_types_and_event_sets_overlap"
+
+    def handler(fname: str, bset: str, helper: str, sets: str, upd: str,
+                edge_out_first: bool, removes: bool) -> None:
+        fi = ctx.func(fname)
+        effs = effects(ctx, fi)
+        nb = f"each({helper}(P:{bset},P:loop_events,P:graph))"
+        types = f"{{each(P:{bset}).event_type for..}}"
+        w = expect(
+            rep, rule, fi, effs,
+            f"{fname}: every outside neighbour's {sets} are rewritten with "
+            "the loop node's type (same direction read and written)",
+            name=upd, recv=nb,
+            args=(f"each({LWL}({nb}.{sets},{OVL}({nb}.{sets},{types}),"
+                  "P:loop_event.event_type))",),
+            why="the neighbour keeps sets that name events which no longer "
+                "exist in the parent graph, or gets them in the wrong "
+                "direction")
+        e_args = (nb, "P:loop_event") if edge_out_first else \
+            ("P:loop_event", nb)
+        expect(rep, rule, fi, effs,
+               f"{fname}: edge between every outside neighbour and the loop "
+               "node, in the direction of the boundary", name="add_edge",
+               recv="P:graph", args=e_args)
+        if removes:
+            pair = (nb, f"each(P:{bset})") if edge_out_first else \
+                (f"each(P:{bset})", nb)
+            es = f"{{EventEdge({pair[0]},{pair[1]}) for.. if (({pair[0]}," \
+                 f"{pair[1]}) In P:graph.edges)}}"
+            es2 = f"{{EventEdge({pair[0]},{pair[1]}) for..}}"
+            r = expect(rep, rule, fi, effs,
+                       f"{fname}: exactly the boundary edges are removed, "
+                       "with the sets that mirror them",
+                       name="remove_event_edges_and_event_sets",
+                       args=(es, "P:graph"), alt_args=[(es2, "P:graph")])
+            if w is not None and r is not None:
+                rep.ob(rule, f"{fname}: the sets are rewritten before the "
+                       "boundary edges (and the types they mirror) are "
+                       "removed", before(ctx, fi, w.node, r.node), fi=fi,
+                       node=r.node,
+                       detail="the rewrite reads the neighbour's sets for "
+                              "the loop's types; after the removal they are "
+                              "gone and nothing is rewritten")
+
+    handler("update_graph_for_loop_start_events", "start_events",
+            "get_innodes_not_in_set", "event_sets", "update_event_sets",
+            True, True)
+    handler("update_graph_for_loop_end_events", "end_events",
+            "get_outnodes_not_in_set", "in_event_sets",
+            "update_in_event_sets", False, True)
+    handler("update_graph_for_break_events_with_path_to_root_event",
+            "break_events", "get_outnodes_not_in_set", "in_event_sets",
+            "update_in_event_sets", False, False)
+    # ---- the two-structure removal
+    fi = ctx.func("remove_event_sets_mirroring_removed_edges")
+    effs = effects(ctx, fi)
+    fields = [n for n, _ in ctx.index.cls("EventEdge").fields()]
+    ok = fields[:2] == ["out_event", "in_event"]
+    rep.ob(rule, "EventEdge is (out_event, in_event)", ok, fi=fi,
+           node=fi.node, detail=f"fields {fields}")
+
+    def idx(s: str) -> str:
+        return s.replace(".out_event", "[0]").replace(".in_event", "[1]")
+    for e in effs:
+        e.recv, e.args = idx(e.recv), tuple(idx(a) for a in e.args)
+    ed = "each(P:event_edges)"
+    expect(rep, rule, fi, effs, "a removed edge's head type leaves the "
+           "successor sets of its tail", name="remove_event_type_from_"
+           "event_sets", recv=f"{ed}[0]", args=(f"{ed}[1].event_type",))
+    expect(rep, rule, fi, effs, "a removed edge's tail type leaves the "
+           "predecessor sets of its head", name="remove_event_type_from_in_"
+           "event_sets", recv=f"{ed}[1]", args=(f"{ed}[0].event_type",))
+    fi = ctx.func("remove_event_edges_and_event_sets")
+    effs = effects(ctx, fi)
+    expect(rep, rule, fi, effs, "edges are removed from the graph",
+           name="remove_edges_from", recv="P:graph", args=("P:event_edges",))
+    expect(rep, rule, fi, effs, "and the same edges from the sets",
+           name="remove_event_sets_mirroring_removed_edges",
+           args=("P:event_edges",))
+    # ---- what a rewritten set is
+    fi = ctx.func("get_event_list_with_loop_event_from_event_list")
+    effs = effects(ctx, fi)
+    pre = ("truth", "P:event_types.intersection(P:event_list)", "1")
+    el = "each(P:event_list)"
+    expect(rep, rule, fi, effs, "types outside the loop are kept, with "
+           "their multiplicity", name="append", recv="[]", args=(el,),
+           must=[("cmp", el, "In", "P:event_types", "0")], may=[pre])
+    expect(rep, rule, fi, effs, "branch evidence: each occurrence of a loop "
+           "type becomes one occurrence of the loop node's type",
+           name="append", recv="[]", args=("P:loop_event_type",),
+           must=[("cmp", el, "In", "P:event_types", "1"),
+                 ("truth", "P:is_branch", "1")], may=[pre],
+           select=lambda e: any(g[0] == "cmp" for g in e.guards))
+    loop_once = [e for e in effs if e.kind == "call" and e.name == "append"
+                 and e.args == ("P:loop_event_type",)
+                 and ("truth", "P:is_branch", "0") in e.guards
+                 and not any(g[0] == "cmp" for g in e.guards)]
+    rep.ob(rule, "no branch evidence: all loop types together become one "
+           "occurrence of the loop node's type", len(loop_once) == 1, fi=fi,
+           node=loop_once[0].node if loop_once else fi.node,
+           detail="; ".join(e.show() for e in effs if e.name == "append"
+                            )[:500])
+    fi = ctx.func("get_event_lists_with_loop_events")
+    effs = effects(ctx, fi)
+    src = "get_event_list_from_event_sets_intersecting_with_event_types_" \
+          "set(P:event_sets,P:event_types)"
+    br = "check_eventsets_indicate_branch_for_set_of_event_types(" \
+         "P:event_sets,P:event_types)"
+    inner = "get_event_lists_with_loop_events_from_event_lists"
+    expect(rep, rule, fi, effs, "every set that touches the loop's types is "
+           "rewritten, with the branch evidence of these same sets",
+           kind="ret", name="",
+           args=(f"{inner}(list({src}),P:loop_event_type,P:event_types,{br})",),
+           alt_args=[(f"{inner}([each({src}) for..],P:loop_event_type,"
+                      f"P:event_types,{br})",)])
+    fi = ctx.func(inner)
+    effs = effects(ctx, fi)
+    one = "get_event_list_with_loop_event_from_event_list(each(" \
+          "P:event_lists),P:loop_event_type,P:event_types,P:is_branch)"
+    if any(e.kind == "call" and e.name == "append" for e in effs):
+        # accumulate form: result.append(rewrite(each list)); return result
+        expect(rep, rule, fi, effs, "each list is rewritten on its own",
+               name="append", recv="[]", args=(one,))
+    else:
+        expect(rep, rule, fi, effs, "each list is rewritten on its own",
+               kind="ret", name="", args=(f"[{one} for..]",))
+    fi = ctx.func("get_event_list_from_event_sets_intersecting_with_event_"
+                  "types_set")
+    effs = effects(ctx, fi)
+    expect(rep, rule, fi, effs, "the sets that touch the loop's types, with "
+           "multiplicities", kind="yield", name="",
+           args=("each(P:event_sets).to_list()",),
+           must=[("truth", "P:event_types.intersection(each(P:event_sets)."
+                  "to_list())", "1")])
+    fi = ctx.func(OVL)
+    effs = effects(ctx, fi)
+    expect(rep, rule, fi, effs, "overlap = the given types that occur in "
+           "some set", kind="ret", name="",
+           args=("P:event_types.intersection((each(each(P:event_sets)."
+                 "to_frozenset()) for..))",),
+           alt_args=[("P:event_types.intersection({each(each(P:event_sets)."
+                      "to_frozenset()) for..})",),
+                     ("P:event_types.intersection((each(each(P:event_sets))"
+                      " for..))",)])
+
+
+def rewiring_order(rep: Report, ctx: Ctx, rule: str) -> None:
+    """The orchestration of the rewiring: both boundary handlers run while
+    the loop's events are still in the graph (they read its edges), then the
+    remaining out-edges of the loop's events are removed *with* their mirror
+    sets, then the nodes; the root is identified before anything is
+    rewired."""
+    from .effspec import before, effects, expect
+    fi = ctx.func("calculate_updated_graph_with_loop_event")
+    effs = effects(ctx, fi)
+    common = ("P:loop.loop_events", "P:loop_event", "P:graph")
+    s1 = expect(rep, rule, fi, effs, "the start boundary is rewired",
+                name="update_graph_for_loop_start_events",
+                args=("P:loop.start_events",) + common)
+    s2 = expect(rep, rule, fi, effs, "the end boundary is rewired",
+                name="update_graph_for_loop_end_events",
+                args=("P:loop.end_events",) + common)
+    s3 = expect(rep, rule, fi, effs, "every remaining edge out of the "
+                "loop's events is removed together with its mirror sets",
+                name="remove_event_edges_and_event_sets",
+                args=("{EventEdge(*each(P:graph.out_edges(P:loop.loop_events"
+                      "))) for..}", "P:graph"))
+    s4 = expect(rep, rule, fi, effs, "the loop's events leave the parent",
+                name="remove_nodes_from", recv="P:graph",
+                args=("P:loop.loop_events",))
+    chain = [("start boundary", s1), ("end boundary", s2),
+             ("edge + mirror-set removal", s3), ("node removal", s4)]
+    for (na, a), (nb, b) in ((chain[0], chain[2]), (chain[1], chain[2]),
+                             (chain[2], chain[3])):
+        if a is not None and b is not None:
+            rep.ob(rule, f"{na} happens before {nb}",
+                   before(ctx, fi, a.node, b.node), fi=fi, node=b.node,
+                   detail="the handlers read the loop's edges; removing "
+                          "nodes first drops the edges without their mirror "
+                          "sets")
+    # root: the in-degree-0 node, taken before any rewiring
+    roots = [b for b in ctx.defs(fi).bindings.values() for b in b
+             if b.kind == "assign" and b.value is not None and any(
+                 isinstance(c, ast.Call) and call_name(c) == "in_degree"
+                 for c in ast.walk(b.value))]
+    ok = len(roots) == 1 and s1 is not None and before(
+        ctx, fi, roots[0].stmt, s1.node)
+    rep.ob(rule, "the root is identified before the graph is rewired",
+           ok, fi=fi, node=roots[0].stmt if roots else fi.node,
+           detail="in-degree 0 is evaluated on the graph as given; after "
+                  "the rewiring other nodes may have lost their "
+                  "predecessors")
+
+
+def r713(rep: Report, ctx: Ctx) -> None:
+    rep.rule("R7.13", "parent rewiring keeps edges and successor / "
+             "predecessor sets of the loop boundary in step", 20)
+    parent_rewiring(rep, ctx, "R7.13")
+    rewiring_order(rep, ctx, "R7.13")
+
+
+def r714(rep: Report, ctx: Ctx) -> None:
+    """The loop node stands for the whole loop in the parent graph: its
+    predecessor sets are the start events' sets that lie outside the loop,
+    its successor sets those of the end *and* break events."""
+    from .loopspec import check_table
+    rep.rule("R7.14", "the loop node inherits the outside evidence of the "
+             "loop's start, end and break events", 8)
+    check_table(rep, ctx, "R7.14", [
+        "create_loop_event", "update_loop_event_in_event_sets",
+        "update_loop_event_out_event_sets",
+        "get_loop_in_event_lists_not_within_loop",
+        "get_loop_out_event_lists_not_within_loop",
+        "get_event_lists_to_add_from_event_not_within_loop"])
+
+
+def r715(rep: Report, ctx: Ctx) -> None:
+    from .loopspec import check_table
+    rep.rule("R7.15", "carving the body: the four kinds of boundary edges "
+             "are cut, the dummies are wired and belong to the body, the "
+             "exit fan-out is recorded per end event", 9)
+    check_table(rep, ctx, "R7.15", [
+        "remove_loop_edges", "add_start_and_end_events_to_graph",
+        "create_end_event_to_event_lists_mapping",
+        "create_sub_graph_of_loop"])
+
+
+def r716(rep: Report, ctx: Ctx) -> None:
+    """A break event that shares its successor with the loop's normal exit
+    (it is directly before the dummy end, or it is itself an exit of *some*
+    end event) cannot be told from the exit once the loop is a node: a dummy
+    break is put between every in-loop predecessor and the break event, on
+    both structures (edges and sets), and the original break event stops
+    being one.  Otherwise the event stays a break leaf in the body *and* is
+    re-attached behind the loop node: it appears twice in the nesting."""
+    from .effspec import before, effects, expect
+    rep.rule("R7.16", "break events connected to the loop's exit are "
+             "replaced by dummy breaks, on edges and sets alike", 11)
+    fi = ctx.func("filter_and_replace_breaks_connected_to_end_events")
+    effs = effects(ctx, fi)
+    B = "each(P:loop.break_events)"
+    PRED = f"each(P:graph.predecessors({B}))"
+    DUMMY = "Event(DUMMY_BREAK_EVENT_TYPE)"
+    trig = ("any", tuple(sorted([
+        ("cmp", B, "In", "get_outnodes_not_in_set(P:loop.end_events,"
+         "P:loop.loop_events,P:graph)", "1"),
+        ("truth", f"any(((DUMMY_END_EVENT Eq each(P:graph.successors({B}))"
+         ".event_type) for..))", "1")])), "1")
+    inner = [("truth", f"has_path_back_to_chosen_nodes({PRED},P:loop."
+              "loop_events.difference(P:loop.end_events),P:graph)", "1"),
+             ("cmp", PRED, "In", "P:loop.end_events", "0")]
+    expect(rep, "R7.16", fi, effs, "a break event that is an exit of SOME "
+           "end event (or directly before the dummy end) stops being a "
+           "break event", name="remove", recv="P:loop.break_events",
+           args=(B,), must=[trig],
+           why="the trigger must quantify existentially over the end "
+               "events: with several end events of which only some lead to "
+               "the exit the break event is otherwise kept as a leaf of the "
+               "body and also re-attached behind the loop node")
+    both = [trig] + inner
+    LWL = "get_event_lists_with_loop_events"
+    OVL = "get_event_types_and_event_sets_overlap"
+    w = expect(rep, "R7.16", fi, effs, "the in-loop predecessor's successor "
+               "sets name the dummy break instead of the break event",
+               name="update_event_sets", recv=PRED,
+               args=(f"each({LWL}({PRED}.event_sets,{OVL}({PRED}.event_sets,"
+                     f"{{{B}.event_type}}),DUMMY_BREAK_EVENT_TYPE))",),
+               must=both)
+    r = expect(rep, "R7.16", fi, effs, "the edge predecessor -> break event "
+               "is removed with its mirror sets",
+               name="remove_event_edges_and_event_sets",
+               args=(f"{{EventEdge({PRED},{B})}}", "P:graph"), must=both)
+    calls = [c for c in ast.walk(fi.node) if isinstance(c, ast.Call)
+             and call_name(c) == LWL]
+    if len(calls) == 1 and r is not None:
+        rep.ob("R7.16", "the rewritten sets are computed before the edge "
+               "(and the type it mirrors) is removed",
+               before(ctx, fi, calls[0], r.node), fi=fi, node=calls[0],
+               detail="after the removal the predecessor's sets no longer "
+                      "name the break event: nothing would be rewritten")
+    expect(rep, "R7.16", fi, effs, "the dummy break's successor set is the "
+           "break event", name="update_event_sets", recv=DUMMY,
+           args=(f"[{B}.event_type]",), must=both)
+    expect(rep, "R7.16", fi, effs, "the dummy break inherits the break "
+           "event's predecessor sets that name this predecessor",
+           name="update_in_event_sets", recv=DUMMY,
+           args=(f"each({B}.in_event_sets).to_list()",),
+           must=both + [("cmp", f"{PRED}.event_type", "In",
+                         f"each({B}.in_event_sets).to_frozenset()", "1")])
+    expect(rep, "R7.16", fi, effs, "the break event records the dummy break "
+           "as a predecessor", name="update_in_event_sets", recv=B,
+           args=("[DUMMY_BREAK_EVENT_TYPE]",), must=both)
+    expect(rep, "R7.16", fi, effs, "edge predecessor -> dummy break",
+           name="add_edge", recv="P:graph", args=(PRED, DUMMY), must=both)
+    expect(rep, "R7.16", fi, effs, "edge dummy break -> break event",
+           name="add_edge", recv="P:graph", args=(DUMMY, B), must=both)
+    expect(rep, "R7.16", fi, effs, "the dummy break becomes a break event "
+           "of the loop", name="add", recv="P:loop.break_events",
+           args=(DUMMY,), must=both)
+    ctors = [c for c in ast.walk(fi.node) if isinstance(c, ast.Call)
+             and call_name(c) == "Event"]
+    ok = len(ctors) == 1
+    if ok:
+        from ..roles import Roles
+        gs = Roles(ctx, fi).guards(ctors[0])
+        from .effspec import _norm_guard, nx_norm
+        gs = [_norm_guard(g, nx_norm) for g in gs]
+        ok = gs == [trig]
+    rep.ob("R7.16", "one dummy break per replaced break event (shared by "
+           "its predecessors)", ok, fi=fi,
+           node=ctors[0] if ctors else fi.node,
+           detail=f"{len(ctors)} Event(..) constructor call(s), created "
+                  "once per triggering break event")
